@@ -25,6 +25,15 @@ CHECKS = {
  "C09": dict(technique="Coq proof: declarative status table proved equal to the server model's behaviour for every state/message + correspondence via vm_compute",
              text="Theorems: for every server state, live session and message, the RPC ends with exactly the code/reason of the declarative table, answers nothing, leaves RIB/election/other sessions unchanged and removes the session; parameters accepted only for SINGLE_PRIMARY+PRESERVE, first, once, consistent. Tied to /repo by differential scripts over the violation alphabet on up to three sessions.",
              ref="DESIGN.md 4/C09", note=TB + " Each scripted message is atomic."),
+ "C02": dict(technique="Coq proof: invariants (closed, quiescent, held-set well-formedness) by induction over histories and over the cascade for every permutation order + correspondence via vm_compute",
+             text="Theorems: an operation is installed only when resolvable; installed state is reference-closed under AddEntry/DeleteEntry/full Flush; after every call no held operation is installable (for every Go map order; fuel of the model proved sufficient); with forward references disabled nothing is ever held. Tied to rib.go by differential arrival-order permutations of dependency DAGs (oks sequence, held ids).",
+             ref="DESIGN.md 4/C02", note=TB + " Map order = arbitrary permutation; partial flushes excluded from the closedness clause as in the property text."),
+ "C06": dict(technique="Coq proof: answer accounting over whole histories (NoDup of all answers, answered-or-held, per-call accounting) for every map order + server batch/FIB theorems + correspondence via vm_compute",
+             text="Theorems: over any history with distinct op ids no id is answered twice (never FAILED and programmed), every answered id was submitted, every accepted operation is answered or still held and held ones are not resolvable; k operations yield k responses; FIB_PROGRAMMED only if negotiated and right after RIB_PROGRAMMED. Known finding K1 (results not routed per session) is recorded; the foreign-result clause is partial. Tied to /repo by differential multi-session scripts with batches and hand-overs.",
+             ref="DESIGN.md 4/C06", note=TB + " Distinct op ids per history; K1 in known_findings.json."),
+ "C08": dict(technique="Coq proof: flush effect theorem over the RIB model under the reachable-state invariant + regenerated checkFlushRequest proved equal to the decision table + correspondence via vm_compute",
+             text="Theorems: checkFlushRequest (regenerated from server.go each run) equals the declarative table for all 128-bit ids; a rejected Flush changes nothing; an authorised one answers OK, empties exactly the selected instances, leaves other instances, held operations and election state alone and preserves the counter invariant, for any contents incl. shared/missing/cyclic backup groups. Tied to /repo by differential scripts over the decision table and RIB shapes.",
+             ref="DESIGN.md 4/C08", note=TB),
 }
 NA = []
 m = {"version": 1,
